@@ -87,6 +87,20 @@ Theorem boot_reopen_rm_eltorito_refuted_old :
     lspace (bl (fst (bstep (reopened s) BRmEltorito))) = lspace (bl (reopened (fst (bstep s BRmEltorito)))).
 Proof. exists bp_shrink_ops. vm_compute. split; [discriminate|reflexivity]. Qed.
 
+(* the current code on the same witnesses and on a boot file without name that carries a boot info table (1 byte:
+   the table is there but too short to be trusted, 3000 bytes: the table gives the exact length): writing the
+   reopened, unedited state after a new layout gives the same image summary (labels aside; the boot info tables
+   keep the orig_len / checksum that were written: [reopened_olen]) *)
+Definition bp_table_ops (len : Z) : list bop :=
+  [BAddFile [] bp_nA len; BAddFile [] bp_nC 100; BAddEltorito [bp_nA] [] bp_nCAT None 0 true false 0 true 0;
+   BRmLink [] bp_nA].
+Definition bp_olen_of (s : bstate) (i : nat) : Z * Z :=
+  match assoc i (reopened_olen s) with Some v => v | None => own_len (reopened s) i end.
+Theorem boot_reopen_second_write_fixpoint_examples :
+  forallb (fun ops => let s := brun binit ops in view_sig_eqb (bp_olen_of s) s (reopened s))
+          [bp_overlap_ops; bp_shrink_ops; bp_table_ops 1; bp_table_ops 3000] = true.
+Proof. vm_compute. reflexivity. Qed.
+
 Print Assumptions boot_reopen_space_exact_refuted_old.
 Print Assumptions boot_reopen_hidden_overlap_refuted_old.
 Print Assumptions boot_reopen_hidden_tail_lost_refuted_old.
